@@ -12,7 +12,7 @@ ASSUMPTIONS = [
     "Engine B (vf/symnum.py): Python floats are treated as exact reals, ints as mathematical integers; IEEE rounding of the millisecond conversion is outside the claim",
     "deadline kernels run the real StateEngine.notify (asl_state_Wait / asl_state_Task_delegate closures) natively on symbolic numbers; time.time(), parse_rfc3339_datetime(...).timestamp() and datetime.now()/fromtimestamp() are replaced by stubs returning the symbolic instants (the RFC 3339 parser itself is checked separately)",
     "RFC 3339 kernel (CrossHair): datetime.strptime/timedelta/timezone in the function's namespace are recording shims so the offset arithmetic stays symbolic (C strptime would realise the string); the date part is passed through unchanged and is checked to be so",
-    "ties (wait target == execution deadline) and events handled at/after the execution deadline are left unconstrained: both 'complete' and 'time out' are defensible there",
+    "in the Engine B kernels ties (wait target == execution deadline) and events handled at/after the execution deadline are left unconstrained: both 'complete' and 'time out' are defensible there",
     "broadcast_notification (int(seconds*1000) conversion, C11's subject) is replaced by a recorder in the Engine B kernels",
     "whole-run timing conditions use the SimBroker's virtual clock: instants are compared exactly",
 ]
@@ -289,8 +289,8 @@ def _timing(which, slow: int, mto: int, catch: bool, c0: int, c1: int, c2: int):
         dur = (d["stopDate"] - d["startDate"]) / 1000.0
         if not slow:
             want = ("SUCCEEDED", 4.0) if mto > 4 else ("FAILED", float(mto))
-        elif mto < 5:
-            want = ("FAILED", float(mto))                       # execution deadline first: not catchable
+        elif mto <= 5:
+            want = ("FAILED", float(mto))                       # execution deadline first (or at the same instant): not catchable
         elif catch:
             want = ("SUCCEEDED", 9.0) if mto > 9 else ("FAILED", float(mto))
         else:
@@ -306,7 +306,7 @@ def _timing(which, slow: int, mto: int, catch: bool, c0: int, c1: int, c2: int):
 @condition(timeout={"quick": 240, "thorough": 600}, functions=scn.ENGINE_FUNCS + ["TaskDispatcher.timeout_callback", "asl_state_Wait.on_timeout"])
 def timing_run(slow: int, mi: int, catch: bool, c0: int, c1: int, c2: int) -> str:
     """
-    requires: 0 <= slow < 2 and 0 <= mi < 3
+    requires: 0 <= slow < 2 and 0 <= mi < 4
     ensures: _ == ""
     """
-    return _timing({"C08", "C02", "C03"}, slow, stubs.pick([3, 7, 20], mi), catch, c0, c1, c2)
+    return _timing({"C08", "C02", "C03"}, slow, stubs.pick([3, 5, 7, 20], mi), catch, c0, c1, c2)
